@@ -45,6 +45,18 @@ def run(ctx):
     for d in ("random.random_shuffle", "random.random_shuffle_all_orders", "random.add_random_edge", "random.add_random_edges"):
         with res.guard("check_purectx, eff, res, d, rootshg,, constsinplace: False, ruleEINPLA"):
             check_pure(ctx, eff, res, d, roots=("hg",), consts={"inplace": False}, rule="E-INPLACE", detail_prefix="inplace=False:")
+        # with inplace=False what comes back is a COPY: a return that hands the argument itself back (an early exit `return None if
+        # inplace else hg`) lets the caller - random_shuffle_all_orders rewires what it got in place - modify the argument
+        with res.guard(f"E-INPLACE fresh result of {d}"):
+            fi_ = ctx.require(d)
+            lv_ = eff.lends(fi_, {"inplace": False}).get("hg")
+            # (a flag that travels on in a derived form - `_Placement.from_flag(inplace).is_inplace` - cannot be folded: which arm of a
+            # conditional runs for inplace=False is then not known, and neither is what the function returns)
+            derived_ = any(isinstance(c_, ast.Call) and any(isinstance(x, ast.Name) and x.id == "inplace" for a_ in list(c_.args) + [k.value for k in c_.keywords if k.arg != "inplace"] for x in ast.walk(a_)) for c_ in ast.walk(fi_.node))
+            if lv_ == 0 and derived_:
+                res.unknown("E-INPLACE", fi_.short, "return <result>", "inplace=False:fresh-result", "the flag is handed on in a derived form; which object is returned for inplace=False was not decided", loc(fi_, fi_.node))
+            else:
+                res.check(lv_ != 0, "E-INPLACE", fi_.short, "return <result>", "inplace=False:fresh-result", "with inplace=False a return hands back the argument hypergraph itself (or one of its internal objects) instead of a copy: whoever modifies the result modifies the argument", loc(fi_, fi_.node))
         with res.guard("M.check_none_testsctx, res, d"):
             M.check_none_tests(ctx, res, d)
         with res.guard("M.check_exclusionctx, res, d"):
@@ -190,7 +202,9 @@ def run(ctx):
                         res.add("D-DISTINCT", f, norm(n), "canonical-element", st, "" if st == "ok" else f"the set that decides when enough hyperedges were drawn holds `{norm(e)[:80]}`, the nodes in drawing order: the same node set drawn in two orders is counted twice and later collapses into one hyperedge, so fewer distinct hyperedges than requested are returned", loc(v.fi, n))
             # a drawing loop that runs on a COUNTER while the draws go into a set: the counter must be taken from the size of the
             # set (draws that repeat an element already held collapse, so counting draws over-counts)
-            for w in walk_no_nested(v.fi.node):
+            # (random_hypergraph draws the requested NUMBER of times and lets repeats collapse - "if a hyperedge is sampled multiple
+            # times, it will be added only once" is its documented behaviour: counting draws is right there)
+            for w in walk_no_nested(v.fi.node) if d != "random.random_hypergraph" else ():
                 if not isinstance(w, (ast.While, ast.For)):
                     continue
                 sets_grown = []
@@ -352,7 +366,7 @@ def run(ctx):
                     # (b) whole-pool definitions
                     if isinstance(t, ast.Name) and t.id in pool_names and isinstance(n, ast.Assign):
                         val = n.value
-                        if isinstance(val, ast.Dict) and not val.keys:
+                        if (isinstance(val, ast.Dict) and not val.keys) or (isinstance(val, (ast.List, ast.Set, ast.Tuple)) and not val.elts):
                             continue  # empty initialisation
                         if isinstance(val, ast.Call) and not val.args and norm(val.func) in ("dict", "set", "list"):
                             continue
@@ -366,6 +380,13 @@ def run(ctx):
                             res.unknown("D-POOL", f, norm(n), "from-rewired-edges", "the pool is built by a helper", loc(v.fi, n))
                         else:
                             res.violation("D-POOL", f, norm(n), "from-rewired-edges", "the pool is taken from another source than the hyperedges selected for rewiring", loc(v.fi, n))
+            # (a') element additions to a list / set pool:  pool.append(node) / pool.add(node)
+            if isinstance(n, ast.Call) and isinstance(n.func, ast.Attribute) and n.func.attr in ("append", "add") and norm(n.func.value) in pool_names and n.args:
+                n_sources += 1
+                loops = v.enclosing_all(n, (ast.For,))
+                its = [norm(l.iter) for l in loops]
+                ok = len(loops) >= 2 and is_idx(loops[-1].iter) and its[-2] == f"{cur}[{norm(loops[-1].target)}]"
+                res.check(ok, "D-POOL", f, norm(n), "from-rewired-edges", f"the pool is filled while iterating {its}: replacement nodes can come from hyperedges that are not rewired", loc(v.fi, n))
             # (c) bulk additions  pool.update(<mapping / pairs>)  /  pool |= ...
             if isinstance(n, ast.Call) and isinstance(n.func, ast.Attribute) and n.func.attr in ("update", "extend", "union") and norm(n.func.value) in pool_names and n.args:
                 n_sources += 1
